@@ -818,9 +818,15 @@ class merge_plan:
         return additions, blocks
 
     def process_blocker(self, stack, choices, blocker, mode, atom):
+        revert_point = self.state.current_state
         ret = self.insert_blockers(stack, choices, [blocker])
         if ret is None:
             return []
+        # a refused blocker must not stay behind as a limiter (nor the installed
+        # packages loaded for it): the caller may go on with another any-of
+        # alternative, and a later identical blocker would find it referenced
+        # already and report no conflict.
+        self.state.backtrack(revert_point)
         self.notify_choice_failed(
             stack,
             atom,
